@@ -85,7 +85,22 @@ def hostile_nodes():
         nodes.append(("untagged-list:" + t, "!%s [1]" % t))
         nodes.append(("untagged-map:" + t, "!%s {a: 1}" % t))
         nodes.append(("untagged-bare:" + t, "!%s ''" % t))
+    # unregistered tags of other families: the yaml.org namespace without python/, foreign namespaces (verbatim, or
+    # through a %TAG handle), verbatim tags without any prefix
+    for label, text in [("yamlorg-widget-map", "!!widget {a: 1}"), ("yamlorg-widget-list", "!!widget [1]"), ("yamlorg-python-no-kind", "!!python ''"),
+                        ("yamlorg-Python-name", "!!Python/name:os.system ''"), ("yamlorg-pythonx", "!!pythonx/object/apply:os.system [1]"),
+                        ("foreign-verbatim-map", "!<tag:example.org,2024:widget> {a: 1}"), ("foreign-verbatim-bare", "!<tag:example.org,2024:widget> ''"),
+                        ("bare-verbatim-python", "!<python/name:os.system> ''"), ("bare-verbatim-widget", "!<widget> [1]"),
+                        ("foreign-handle-map", "!e!widget {a: 1}"), ("foreign-handle-apply", "!e!python/object/apply:vcanary.fire [1]")]:
+        nodes.append((label, text))
     return nodes
+
+
+HANDLES = {"!py!": "tag:yaml.org,2002:python/", "!e!": "tag:example.org,2024:"}
+
+
+def handle_of(node):
+    return next((h for h in HANDLES if node.startswith(h)), None)
 
 
 POSITIONS = {
@@ -105,6 +120,9 @@ POSITIONS = {
     "lazy_tag_mapping_key": "pipeline:\n  - !VDeco {? %(h)s : 1}\n  - !VPool\n",
     "eager_tag_mapping_key": "pipeline:\n  - !VDeco\n  - !VPoolNow {? %(h)s : 1}\n",
     "merge_value": "pipeline:\n  - !VPool {<<: %(h)s, b: 2}\n",
+    # on the single-pair mappings that are the entries of an ordered mapping / a list of pairs
+    "omap_entry": "pipeline:\n  - !VPool\nvextra: !!omap [%(h)s]\n",
+    "pairs_entry": "pipeline:\n  - !VPool {a: !!pairs [{k: 1}, %(h)s]}\n",
     "root_tag_on_sections": "--- %(tag)s\npipeline:\n  - !VPool\nvextra: {a: 1}\n",
     "dup_key_lazy": "pipeline:\n  - !VDeco {a: %(h)s, a: 1}\n  - !VPool\n",
     "dup_key_eager": "pipeline:\n  - !VDeco\n  - !VPoolNow {a: %(h)s, a: 1}\n",
@@ -133,6 +151,7 @@ POSITIONS = {
     "second_document_root": "pipeline:\n  - !VPool\n...\n%(directive)s--- %(h)s\n",
     "third_document": "pipeline:\n  - !VPool\n---\n---\n%(directive)s---\n- [%(h)s]\n",
 }
+ENTRY_POSITIONS = ("omap_entry", "pairs_entry")
 MULTI_DOC = ("second_document", "second_document_root", "third_document")
 HIDDEN = ("hidden_top_level_key", "hidden_top_level_list")  # the twin is the document without that key
 BENIGN = "!VSnapLazy {ok: 1}"
@@ -143,16 +162,18 @@ def all_cases():
     cases = []
     for label, node in hostile_nodes():
         for pos, template in POSITIONS.items():
-            directive = "...\n%TAG !py! tag:yaml.org,2002:python/\n" if node.startswith("!py!") else ""
+            handle = handle_of(node)
+            declare = "%%TAG %s %s\n" % (handle, HANDLES[handle]) if handle else ""
+            directive = "...\n" + declare if handle else ""
             if pos == "second_document_root" and directive:
                 directive = directive[4:]  # the template ends the first document itself
             text = template % {"h": node, "tag": node.split(" ")[0], "directive": directive}
             if pos in MULTI_DOC:
                 pass  # the first document needs no directive
-            elif node.startswith("!py!") and pos == "root_tag_on_sections":
-                text = "%TAG !py! tag:yaml.org,2002:python/\n" + text  # the template brings its own document marker
-            elif node.startswith("!py!"):
-                text = "%TAG !py! tag:yaml.org,2002:python/\n---\n" + text
+            elif handle and pos == "root_tag_on_sections":
+                text = declare + text  # the template brings its own document marker
+            elif handle:
+                text = declare + "---\n" + text
             cases.append({"label": label, "position": pos, "text": text})
     return cases
 
@@ -291,7 +312,7 @@ def run_product(spec, result):
             result.count("hostile_documents_in_yml_files")
         hostile = hostile_nodes_by_label()[case["label"]]
         special = {"root": "{pipeline: [!VPool ]}", "pipeline_element": "!VDeco", "pipeline_tail": "!VPool", "mapping_key": "plainkey",
-                   "lazy_tag_mapping_key": "plainkey", "eager_tag_mapping_key": "plainkey", "shipped_tag_arg": "2", "merge_value": "{a: 1}"}
+                   "lazy_tag_mapping_key": "plainkey", "eager_tag_mapping_key": "plainkey", "shipped_tag_arg": "2", "merge_value": "{a: 1}", "omap_entry": "{a: 1}", "pairs_entry": "{a: 1}"}
         if case["position"] in MULTI_DOC or case["position"] in HIDDEN:
             twin = "pipeline:\n  - !VPool\n"  # the stream without the later documents / without the extra key
         elif case["position"] == "root_tag_on_sections":
@@ -346,6 +367,9 @@ def run_product(spec, result):
             # PyYAML flattens the value of a merge key without ever looking at its tag: the document
             # loads, the tag is ignored, nothing is constructed
             mech = "C18/merge-value-tag-ignored"
+        if case["position"] in ENTRY_POSITIONS and err is None and not can.events:
+            # PyYAML takes the key and the value out of an !!omap / !!pairs entry without looking at the entry's own tag
+            mech = "C18/omap-entry-tag-ignored"
         for p in problems:
             clean = {k: v for k, v in spec.items() if k != "only_case"}
             result.violation("%s at %s: %s\n%s" % (case["label"], case["position"], p, case["text"]), case, mech, spec=clean, case_id=i)
@@ -378,7 +402,7 @@ def run_daemon(spec, result):
                 f.write(case["text"].replace("echo verif-canary", "echo fired >> %s" % marker))
             env["VERIF_CANARY_FILE"] = marker
             # the recorded merge-key finding at process level: the document loads, so the daemon runs
-            mech = "C18/merge-value-tag-ignored" if case["position"] == "merge_value" else None
+            mech = "C18/merge-value-tag-ignored" if case["position"] == "merge_value" else "C18/omap-entry-tag-ignored" if case["position"] in ENTRY_POSITIONS else None
             try:
                 proc = subprocess.run([core.PYTHON, "-m", "cobald.daemon", cfg], env=env, capture_output=True, text=True, timeout=20 if mech else 60)
             except subprocess.TimeoutExpired:
@@ -410,7 +434,7 @@ def run_shard(spec):
 
 def finish(total, tier):
     need = ["hostile_documents", "benign_twins_loaded", "canary_selftests_fired", "hostile_documents_replacing_a_loaded_file_in_place", "hostile_documents_in_yml_files"] + ["position_" + p for p in POSITIONS]
-    need += ["kind_" + k for k in ("apply-list", "object", "new", "name", "module", "typed", "untagged-list")]
+    need += ["kind_" + k for k in ("apply-list", "object", "new", "name", "module", "typed", "untagged-list", "yamlorg-widget-map", "foreign-verbatim-map", "foreign-handle-map", "bare-verbatim-python")]
     for name in need:
         if not total.counters.get(name) and not total.violations:
             total.inconc("monitor never observed: " + name)
